@@ -83,6 +83,13 @@ def _state_digest(obj, ignore=()):
 
 
 def _flatten(res, out):
+    # labelled results are compared by LABEL: they may follow the label order of an input
+    if isinstance(res, pd.Series) and len(res.index) and \
+            all(isinstance(x, str) for x in res.index) and res.index.is_unique:
+        res = res[sorted(res.index)]
+    if isinstance(res, pd.DataFrame) and len(res.columns) and \
+            all(isinstance(x, str) for x in res.columns) and res.columns.is_unique:
+        res = res[sorted(res.columns)]
     if isinstance(res, (pd.DataFrame, pd.Series)):
         out.append(np.asarray(res.to_numpy(), dtype=float)
                    if res.to_numpy().dtype.kind in 'fiub' else None)
@@ -99,6 +106,9 @@ def _flatten(res, out):
             _flatten(x, out)
     elif hasattr(res, 'as_quat'):
         out.append(np.asarray(res.as_quat()))
+    elif type(res).__name__ == 'Integrator' and hasattr(res, 'mat_nb'):
+        n = len(res.trajectory)      # observable state only (buffers are np.empty beyond)
+        _flatten([res.trajectory, res.lla[:n], res.velocity_n[:n], res.mat_nb[:n]], out)
     elif hasattr(res, '__dict__') and not callable(res) and not isinstance(res, type):
         _flatten({k: v for k, v in vars(res).items() if k != 'rng'}, out)
     return out
@@ -160,6 +170,8 @@ def _draw_forms(call, r):
         if a.kind in api.FORMS and a.value is not None and r.random() < 0.55:
             opts = api.FORMS[a.kind]
             if a.kind == 'table' and not isinstance(a.value, pd.DataFrame):
+                continue
+            if a.kind == 'pva' and not isinstance(a.value, pd.Series):
                 continue
             if a.cols is None:
                 opts = [o for o in opts if o not in ('dataframe',)]
@@ -279,15 +291,20 @@ def execute(sc, only_first=True):
             # ---- 5. schema
             if call.schema:
                 results = res if isinstance(res, tuple) else (res,)
+                relabelled = any(f in ('labels_permuted', 'labels_reversed', 'cols_permuted',
+                                       'cols_reversed') for f in forms.values())
                 for kind, val in zip(call.schema, results):
-                    problem = api.check_schema(kind, val, call.expect_index)
+                    problem = api.check_schema(kind, val, call.expect_index,
+                                               ordered=not relabelled)
                     if problem:
                         viol.append(V('schema', f"call #{k} {desc}: {problem}",
                                       f"schema/{call.name}"))
                         break
             records.append((k, call, forms, pre, dres, desc))
             # ---- pool update (results alias what the function returned)
-            if call.out:
+            relabelled_call = any(f in ('labels_permuted', 'labels_reversed', 'cols_permuted',
+                                        'cols_reversed') for f in forms.values())
+            if call.out and not relabelled_call:
                 results = res if isinstance(res, tuple) else (res,)
                 for kind, val in zip(call.out, results):
                     if kind == 'pva_unnamed':
@@ -399,4 +416,5 @@ def describe():
                       [f'form:{f}' for f in ('list', 'tuple', 'fortran', 'noncontig',
                                              'series', 'dataframe', 'row0', 'cols_permuted',
                                              'cols_reversed', 'extra_leading_col',
-                                             'np_int64', 'np_int32')])
+                                             'np_int64', 'np_int32', 'labels_permuted',
+                                             'labels_reversed')])
